@@ -390,8 +390,22 @@ fn area_sinks(cx: &mut Cx, r: &mut Rng) {
             }
             let sock = std::os::unix::net::UnixDatagram::unbound().unwrap();
             sock.set_nonblocking(true).unwrap();
+            // a third of the cases: a path no socket address can hold (>= 108 bytes, several KiB), one with an interior
+            // NUL byte, the empty path - the constructors cannot fail, so the sends must (with an error, not a panic)
+            let path: std::path::PathBuf = match r.below(9) {
+                0 => std::path::PathBuf::from(format!("/var/tmp/{}", "p".repeat(*r.pick(&[98usize, 99, 100, 107, 108, 200, 5000])))),
+                1 => {
+                    use std::os::unix::ffi::OsStringExt;
+                    std::path::PathBuf::from(std::ffi::OsString::from_vec(b"/var/tmp/nul\0inside.sock".to_vec()))
+                }
+                2 => std::path::PathBuf::from(""),
+                _ => path,
+            };
             if which == 4 {
-                let sink = UnixMetricSink::from(&path, sock);
+                let sink = match cx.call("sinks", "UnixMetricSink::from", tr, || UnixMetricSink::from(&path, sock)) {
+                    Some(s) => s,
+                    None => return,
+                };
                 for m in &metrics {
                     cx.call("sinks", "UnixMetricSink::emit", tr, || { let _ = sink.emit(m); });
                 }
